@@ -332,6 +332,18 @@ def run(prop, tier='quick', seed=0, replay=None):
                            thms=thms, discharged=0, violations=0)
             return 2
 
+    # 3b thorough tier: independent re-check of the compiled property theorems (leanchecker replays every declaration of the
+    # module through the kernel from the .olean).  A failure here is a toolchain problem, not a verdict: exit 2.
+    rechecked = None
+    if proofs_ok and tier == 'thorough' and not replay and os.environ.get('VERIF_LEANCHECKER', '1') == '1':
+        rc_c, out_c = sh(['lake', 'env', 'leanchecker', prop.props_module], cwd=LEAN, timeout=3000)
+        rechecked = rc_c == 0
+        say(f'[{prop.id}] leanchecker {prop.props_module}: ' + ('ok' if rechecked else 'FAILED ' + out_c[-400:]))
+        if not rechecked:
+            write_evidence(prop, tier, seed, t0, dict(evaluations=0), note='leanchecker failed: ' + out_c[-400:],
+                           thms=thms, discharged=0, violations=0)
+            return 2
+
     # 4 inputs
     if replay:
         payload = json.loads(Path(replay).read_text())
@@ -458,6 +470,8 @@ def run(prop, tier='quick', seed=0, replay=None):
         known_classes_hit=sorted(known_hit),
         theorems=thms,
     )
+    if rechecked is not None:
+        cov['leanchecker'] = f'lake env leanchecker {prop.props_module}: ' + ('ok' if rechecked else 'failed')
     cov.update(extra_cov or {})
     write_evidence(prop, tier, seed, t0, cov, thms=thms, obligations=obligations, discharged=discharged,
                    violations=len(violations))
